@@ -2,6 +2,7 @@ package exec
 
 import (
 	"fmt"
+	"strings"
 	"go/constant"
 	"go/token"
 	"go/types"
@@ -32,6 +33,9 @@ func (m *Machine) constText(s string) Text {
 		}
 	}
 	_ = utf8.RuneCountInString
+	if strings.Contains(s, "\x1b") {
+		w = 0 // terminal control strings have no display width
+	}
 	id := m.IntC(0)
 	if len(s) > 0 {
 		id = m.textID("const:" + s)
